@@ -173,6 +173,9 @@ pub struct Plan {
     pub fault_write: Option<(usize, WStep)>,
     /// The same for flush call `index`.
     pub fault_flush: Option<(usize, ErrKind)>,
+    /// The file implements `write_vectored` natively: one call may accept
+    /// bytes across several of the caller's buffers (and stop anywhere).
+    pub vectored: bool,
 }
 
 impl Plan {
@@ -186,6 +189,7 @@ impl Plan {
             flips: vec![],
             fault_write: None,
             fault_flush: None,
+            vectored: false,
         }
     }
     pub fn is_clean(&self) -> bool {
@@ -310,6 +314,7 @@ impl SinkState {
             flips: self.plan.flips.clone(),
             fault_write: self.plan.fault_write,
             fault_flush: self.plan.fault_flush,
+            vectored: self.plan.vectored,
         }
     }
 
@@ -581,6 +586,24 @@ impl Write for SimSink {
     fn write(&mut self, buf: &[u8]) -> io::Result<usize> {
         self.0.borrow_mut().do_write(buf)
     }
+    fn write_vectored(&mut self, bufs: &[io::IoSlice<'_>]) -> io::Result<usize> {
+        let mut st = self.0.borrow_mut();
+        if st.plan.vectored {
+            // a device that gathers: the acceptance length applies to the
+            // concatenation of all buffers
+            let mut all = Vec::new();
+            for b in bufs {
+                all.extend_from_slice(b);
+            }
+            st.do_write(&all)
+        } else {
+            // the default of io::Write: the first non-empty buffer only
+            match bufs.iter().find(|b| !b.is_empty()) {
+                Some(b) => st.do_write(b),
+                None => st.do_write(&[]),
+            }
+        }
+    }
     fn flush(&mut self) -> io::Result<()> {
         self.0.borrow_mut().do_flush()
     }
@@ -626,7 +649,42 @@ impl Tap {
     }
 }
 
+impl Tap {
+    fn account(&mut self, requested: usize, r: &io::Result<usize>) {
+        let mut st = self.st.borrow_mut();
+        st.write_calls += 1;
+        st.flushed_last = false;
+        match r {
+            Ok(n) => {
+                st.accepted += *n as u64;
+                if *n == 0 && requested > 0 {
+                    st.zero_returned = true;
+                }
+            }
+            Err(e) => {
+                if e.kind() != io::ErrorKind::Interrupted {
+                    st.errors += 1;
+                    if st.first_err.is_none() {
+                        st.first_err = Some(e.kind());
+                    }
+                }
+            }
+        }
+    }
+}
+
 impl Write for Tap {
+    fn write_vectored(&mut self, bufs: &[io::IoSlice<'_>]) -> io::Result<usize> {
+        // forwarded, so that a BufWriter's own gathering behaviour (and a
+        // gathering file) is what a vectored caller meets
+        let r = match &mut self.inner {
+            Layer::Direct(s) => s.write_vectored(bufs),
+            Layer::Buffered(b) => b.write_vectored(bufs),
+        };
+        let total: usize = bufs.iter().map(|b| b.len()).sum();
+        self.account(total, &r);
+        r
+    }
     fn write(&mut self, buf: &[u8]) -> io::Result<usize> {
         let r = match &mut self.inner {
             Layer::Direct(s) => s.write(buf),
